@@ -2,16 +2,16 @@ import sys, os
 sys.path.insert(0, os.path.join(VERIF, 'harness'))
 from typed_common import *
 HARNESSES = []
-TY = ['T_Seq', 'T_Cho', 'T_SeqOf', 'T_Oct', 'T_SeqX', 'T_SetOf', 'T_Bits', 'T_IntW']
-Q = {('T_Seq', 'der'), ('T_Seq', 'oer'), ('T_SeqOf', 'der'), ('T_Oct', 'der'), ('T_Cho', 'oer'), ('T_SeqOf', 'oer')}
+TY = ['T_Seq', 'T_SeqX1', 'T_Cho', 'T_SeqOf', 'T_Oct', 'T_SeqX', 'T_SetOf', 'T_Bits', 'T_IntW']
+Q = {('T_SeqX1', 'oer'), ('T_Seq', 'der'), ('T_Seq', 'oer'), ('T_SeqOf', 'der'), ('T_Oct', 'der'), ('T_Cho', 'oer'), ('T_SeqOf', 'oer')}
 for t in TY:
     for k in ('der', 'oer', 'uper'):
         if k == 'uper' and (t in UPER_TOO_COSTLY or t == 'T_IntW'):
             continue
         tiers = ('quick', 'thorough') if (t, k) in Q else ('thorough',)
-        n = 4
+        n = 5 if t in ('T_SeqX', 'T_SeqX1') else 4      # T-SeqX needs 5 octets to reach the extension bitmap
         def mk(name, src, defs, fn, inp):
-            h = typed(H, name, src, t, k, tiers=tiers, leak=True, alloc=True, defines=defs, functions=[fn], inputs=inp,
+            h = typed(H, name, src, t, k, tiers=tiers, leak=True, alloc=True, defines=defs, functions=[fn], inputs=inp, model_defines=['-DVERIF_ALLOC_ROUND'],
                       bounds='one allocation failure per history; histories of at most three codec calls')
             if t == 'T_IntW':
                 h.gen = dict(h.gen, opts=h.gen['opts'] + ['-fwide-types'])
